@@ -610,6 +610,62 @@ func c19(c *core.Ctx) {
 		if n == 0 {
 			c.Fail(genPkg+":import-path-override", token.NoPos, "ANCHOR-MISSING: no function that both registers the import_path override and calls the per-file generator")
 		}
+		// "for every file": the list of files is not filtered IN PLACE by a helper while it is still needed — a helper
+		// that builds its result in its parameter's own backing array (p[:0] + append) overwrites the caller's list
+		for _, fn := range p.LibFuncs(genPkg) {
+			for _, call := range core.CallsIn(fn, func(_ *ssa.Call, ci core.CallInfo) bool { return ci.Static != nil && core.PkgIs(ci.Static, genPkg) }) {
+				h := call.Call.StaticCallee()
+				for ai, a := range call.Call.Args {
+					if _, isSl := a.Type().Underlying().(*types.Slice); !isSl || ai >= len(h.Params) {
+						continue
+					}
+					// does h reslice parameter ai to length 0 and append to that?
+					inPlace := false
+					core.Instrs(h, func(in ssa.Instruction) {
+						sl, ok := in.(*ssa.Slice)
+						if !ok || sl.X != ssa.Value(h.Params[ai]) || sl.High == nil {
+							return
+						}
+						if k, isC := core.ConstInt(sl.High); !isC || k != 0 {
+							return
+						}
+						for _, r := range core.Refs(sl) {
+							if ap, isCall := r.(*ssa.Call); isCall {
+								if b, isB := ap.Call.Value.(*ssa.Builtin); isB && b.Name() == "append" {
+									inPlace = true
+								}
+							}
+							if _, isPhi := r.(*ssa.Phi); isPhi {
+								inPlace = true // the loop-carried accumulator starts at p[:0]
+							}
+						}
+					})
+					if !inPlace {
+						continue
+					}
+					// the caller's slice is read again after the call?
+					usedAfter := false
+					for _, o := range core.Origins(a) {
+						for _, r := range core.Refs(o) {
+							ri, isI := r.(ssa.Instruction)
+							if !isI || ri == ssa.Instruction(call) || ri.Parent() != fn {
+								continue
+							}
+							if core.Reachable(core.After(call), ri) {
+								usedAfter = true
+							}
+						}
+					}
+					// ... or loaded again from the same field (req.Files read a second time)
+					core.Instrs(fn, func(in ssa.Instruction) {
+						if v, ok := in.(ssa.Value); ok && in != ssa.Instruction(call) && v != a && core.SameVal(v, a) && core.Reachable(core.After(call), in) {
+							usedAfter = true
+						}
+					})
+					c.Check(!usedAfter, core.FuncName(fn)+":"+h.Name()+":list-not-filtered-in-place", call.Pos(), "the list handed to the in-place filter is not used again", "the list handed to "+h.Name()+" is filtered in place (result built in the argument's own backing array) and then used again by the caller: the later loop (e.g. the import_path override for every file) sees the overwritten list")
+				}
+			}
+		}
 		c.EndRule()
 	}
 
